@@ -39,6 +39,7 @@ ClassifyDatagramLike(id, seg, ctx) ==
             IN
             IF S2IsReply(seg) THEN Cls(id, "mustnot", "C17", "smb2-reply-flag")
             ELSE IF S2OtherCommand(seg) THEN Cls(id, "mustnot", "C17", "smb2-other-command")
+            ELSE IF S2NegotiateOffersNothing(seg) THEN Cls(id, "mustnot", "C17", "smb2-no-dialect-offered")
             ELSE IF d # << >> /\ ds \cap { 514, 528 } # {} THEN Cls(id, "must", "C17", "smb2-negotiate")
             ELSE IF d # << >> /\ ds \cap KNOWN_SMB2_DIALECTS = {} THEN Cls(id, "mustnot", "C17", "smb2-no-supported-dialect")
             ELSE IF S2SessionSetupClean(seg) THEN Cls(id, "must", "C17", "smb2-session-setup")
@@ -148,7 +149,8 @@ AppJudge(transport, before, done, seg, ctx, rpl, aux) ==
         s == before \o seg
         id == RefId(s, transport = "udp")
         who == IF answered THEN ResponderOf(transport, rpl) ELSE "nobody"
-        rt == ReplyTypedBy(transport, s)
+        (* reply-typed: the stream as a whole, or (message-oriented protocols) this segment alone *)
+        rt == ReplyTypedBy(transport, s) \cup (IF before # << >> THEN ReplyTypedBy("udp", seg) ELSE {})
     IN
     (IF c.ans = "mustnot" /\ answered
      THEN { << c.prop, "answered:" \o c.why >> }
@@ -173,7 +175,13 @@ AppJudge(transport, before, done, seg, ctx, rpl, aux) ==
                                          ELSE {}
                  [] c.proto = "RPC_UDP" -> { << "C16", t >> : t \in RpcReplyShellFails(seg, 0, rpl, 0) }
                  [] c.proto = "RPC_TCP" -> IF transport = "tcp" /\ Len(before) = 0
-                                           THEN { << "C16", t >> : t \in RpcReplyShellFails(seg, 4, rpl, 4) } ELSE {}
+                                           THEN { << "C16", t >> : t \in RpcReplyShellFails(seg, 4, rpl, 4) }
+                                           ELSE IF transport = "udp"
+                                           THEN (* a record-marked call in a datagram: framed or not, the answer echoes the call's XID *)
+                                                IF RpcReplyShellFails(seg, 4, rpl, 4) = {} \/ RpcReplyShellFails(seg, 4, rpl, 0) = {}
+                                                THEN {} ELSE { << "C16", "rpc-reply-to-record-marked-datagram" >>,
+                                                               << "C10", "rpc-framing-decided-by-the-signature-not-the-transport" >> }
+                                           ELSE {}
                  [] c.proto = "SMB1"  -> { << "C17", t >> : t \in S1ReplyShellFails(seg, rpl) }
                  [] c.proto = "SMB2"  -> { << "C17", t >> : t \in S2ReplyShellFails(seg, rpl) }
                  [] c.proto = "DNS"   -> IF Len(seg) >= 12 /\ Len(rpl) >= 12
